@@ -377,11 +377,9 @@ def _hllc_1d(q):
     return G, vL, vR, aL, aR
 
 
-def is_contact_at_rest_outside_fan(q):
-    """input class of the recorded finding: the contact estimate S* is zero to rounding while the
-    outer wave estimates do not straddle the face (S_L >= 0 or S_R <= 0, i.e. S* outside
-    [S_L, S_R]): the code then switches between the plain upwind fluxes F_L and F_R on the sign of
-    rounding noise.  Typical case: (nearly) mirror-symmetric states colliding faster than a*q."""
+def sstar_zero_unordered(q, exact):
+    """S*, S_L, S_R exactly as HLLCRiemannSolver computes them (same IEEE operations).
+    exact: require S* == 0.0; otherwise |S*| <= 1e-12 * (velocity scale incl. boost)."""
     try:
         if not (q["rhoL"] > 0 and q["PL"] > 0 and q["rhoR"] > 0 and q["PR"] > 0):
             return False
@@ -397,62 +395,31 @@ def is_contact_at_rest_outside_fan(q):
             qR = math.sqrt(1. + 0.5 * (G + 1.) / G * (pstar * (1. / (PR + DBL_MIN)) - 1.))
         SLm, SRm = -aL * qL, aR * qR
         Sstar = ((PR - PL) + (rhoL * vL * SLm - rhoR * vR * SRm)) / ((rhoL * SLm - rhoR * SRm) + DBL_MIN)
+        if not (SLm + vL >= 0. or SRm + vR <= 0.):
+            return False
+        if exact:
+            return Sstar == 0.
         V = abs(vL) + abs(vR) + aL + aR + norm(q["vf"]) + norm(q["w"]) + norm(q["uL"]) + norm(q["uR"])
-        return abs(Sstar) <= 1e-12 * V and (SLm + vL >= 0. or SRm + vR <= 0.)
+        return abs(Sstar) <= 1e-12 * V
     except (ValueError, OverflowError, ZeroDivisionError):
         return False
 
 
-def near(x, y, scale):
-    return abs(x - y) <= 1e-13 * scale
-
-
-def is_fan_tail_tie(op):
-    """the tail u ± 2a/(γ-1) of a fan next to vacuum lies within rounding of the sampling speed"""
-    w = op.split()
-    try:
-        if w[0] in ("f", "t", "m", "i", "d"):
-            q = parse_flux_op(op)
-            G, vL, vR, aL, aR = _hllc_1d(q)
-            t = 2. / (G - 1.)
-            r = False
-            if q["rhoL"] > 0 and q["PL"] > 0:
-                r = r or near(vL + t * aL, 0., abs(vL) + t * aL)
-            if q["rhoR"] > 0 and q["PR"] > 0:
-                r = r or near(vR - t * aR, 0., abs(vR) + t * aR)
-            return r
-        v = [vlib.bits2f(x) for x in w[1:]]
-        G = max(v[0], 1.00000001)
-        t = 2. / (G - 1.)
-        if w[0] == "sr":
-            return near(v[2] + t * v[4], v[5], abs(v[2]) + t * v[4] + abs(v[5]))
-        if w[0] == "sl":
-            return near(v[2] - t * v[4], v[5], abs(v[2]) + t * v[4] + abs(v[5]))
-        if w[0] == "sg":
-            d = v[9]
-            return near(v[2] + t * v[4], d, abs(v[2]) + t * v[4] + abs(d)) or near(v[6] - t * v[8], d, abs(v[6]) + t * v[8] + abs(d))
-        if w[0] == "x":
-            aL, aR = sound(v[0], v[1], v[3]), sound(v[0], v[4], v[6])
-            d = v[7]
-            return (aL > 0 and near(v[2] + t * aL, d, abs(v[2]) + t * aL + abs(d))) or \
-                   (aR > 0 and near(v[5] - t * aR, d, abs(v[5]) + t * aR + abs(d)))
-    except (ValueError, OverflowError, ZeroDivisionError, IndexError):
-        pass
-    return False
+FINDING_KEY = "hllc:mirror-at-sstar-zero-unordered-speeds"
 
 
 def oracle_key(what, grp):
-    """key = failing clause, refined by the input class of the two recorded findings so that a
-    known-finding entry cannot hide any other failure of the same clause"""
+    """key = failing clause.  ONE recorded finding has its own key, computed from the input so that
+    the known-finding entry cannot hide any other failure of the mirror / Galilean clauses:
+    HLLC path, contact estimate S* == 0 exactly (for the Galilean clause: zero to rounding, the
+    boost moves it across 0) while the outer estimates do not straddle the face (S_L >= 0 or
+    S_R <= 0) -- the set excluded by the hypothesis of theorem hllc_mirror."""
     toks = [t.split("(")[0] for t in what.split()]
     op = grp[-1] if grp else ""
     kind = op.split()[0] if op else ""
-    if kind in ("f", "t", "m", "i") and set(toks) <= {"hllc-mirror", "hllc-galilean", "hllc-mirror-exchange"}:
-        if is_contact_at_rest_outside_fan(parse_flux_op(op)):
-            return "flux:hllc-contact-at-rest-outside-wave-fan"
-    nonfinite = [t for t in toks if t.endswith("unphysical") or t.endswith("not-finite")]
-    if nonfinite and is_fan_tail_tie(op):
-        return "flux:nan-at-fan-tail"
+    if kind in ("f", "t", "m", "i") and set(toks) <= {"hllc-mirror", "hllc-galilean"}:
+        if sstar_zero_unordered(parse_flux_op(op), exact="hllc-mirror" in toks):
+            return FINDING_KEY
     return "flux:" + toks[0]
 
 
@@ -462,7 +429,7 @@ def run(ctx):
         "theorems are statements over exact real arithmetic (DBL_MIN guards = 0, 1/x overflows only at x = 0); rounding, overflow and NaN are float notions: bounded/searched only empirically (correspondence tolerance 1e-10 of the flux scale, finiteness oracles)",
         "libm sqrt/pow of the Lean Float driver and of the C++ are the same glibc functions",
         "rho, P >= 0 and finite inputs (the solvers assert this); the constructors clamp gamma to >= 1.00000001, so every theorem holds for every gamma argument (mirror_no_exchange needs no upper bound either)",
-        "hllc_mirror_partial carries the explicit hypothesis h0: on the HLLC path, S* = 0 exactly implies S_L < 0 < S_R; without it the statement is FALSE for the code (theorem hllc_mirror_fails_for_fast_symmetric_collision; finding flux:hllc-contact-at-rest-outside-wave-fan)",
+        "hllc_mirror carries the hypothesis h0: on the HLLC path S* != 0 or S_L < 0 < S_R; it excludes exactly the set on which the code is NOT antisymmetric (S* = 0 exactly with unordered wave-speed estimates; theorem hllc_mirror_fails_for_fast_symmetric_collision; recorded finding hllc:mirror-at-sstar-zero-unordered-speeds)",
         "hllc_textbook is stated for ordered wave-speed estimates S_L <= S* <= S_R (as in the property); the estimates themselves (PVRS pressure) are part of the model and can be disordered for extreme density/pressure contrasts",
         "Galilean covariance of the implementation is checked relative to the largest velocity involved (eps*(|u|+|vface|+|w|) limits what doubles can represent); subnormal densities/pressures (kind d) are compared with the model but get no oracle",
         "the iterative (non-vacuum) path of ExactRiemannSolver::solve is not modelled here (C11); it only receives the symmetry oracles at tolerance 1e-6",
@@ -557,12 +524,11 @@ MANIFEST = dict(
           "(vacuum_same_as_exact), sampled states have rho, P >= 0 (vacuum_sample_physical), fans join state and vacuum continuously "
           "(vacuum_fan_continuous), no jump at S_L = 0, S_R = 0, S* = 0 (hllc_continuous_switch, hllc_contact_at_rest), mirror states closing "
           "below 1.5 sound speeds exchange no mass/energy (mirror_no_exchange), mirror antisymmetry of all five components "
-          "(hllc_mirror_partial: under the hypothesis that S* = 0 exactly comes with S_L < 0 < S_R; the unconditional statement is proved "
-          "FALSE for the code, hllc_mirror_fails_for_fast_symmetric_collision). The same definitions compiled at Float agree bit for bit "
+          "(hllc_mirror: for S* != 0 or S_L < 0 < S_R; on the excluded set the code is proved NOT antisymmetric, "
+          "hllc_mirror_fails_for_fast_symmetric_collision). The same definitions compiled at Float agree bit for bit "
           "with both real solver classes on identical doubles; the symmetry relations are also evaluated on the implementation."),
     note=("Trusted: Lean kernel + 3 standard axioms; hand model (tied by bit-exact correspondence incl. the private samplers and the 1/x "
-          "overflow tests); exact-arithmetic theorems say nothing about rounding/overflow/NaN (searched by oracles: NaN at a fan tail within "
-          "rounding of x/t is a recorded finding); DBL_MIN guards = 0 and gamma clamp as in the constructors; hllc_mirror only _partial "
-          "(hypothesis h0; counterexample theorem + finding flux:hllc-contact-at-rest-outside-wave-fan); the wave-speed estimates are not "
+          "overflow tests); exact-arithmetic theorems say nothing about rounding/overflow/NaN (searched by oracles; the NaN at a fan tail they found was fixed by 52f78a3); DBL_MIN guards = 0 and gamma clamp as in the constructors; hllc_mirror needs hypothesis h0 "
+          "(counterexample theorem + recorded finding hllc:mirror-at-sstar-zero-unordered-speeds); the wave-speed estimates are not "
           "shown to be ordered (they are not, for extreme contrasts); iterative path of the exact solver belongs to C11."),
     technique="Lean 4 proof over exact real arithmetic (one generic definition, instantiated at Float and R) + differential correspondence on identical doubles")
